@@ -14,7 +14,8 @@
 //!
 //! Monitors (ghost ledger on the implementation trace, independent of the Lean model): versions
 //! never decrease, same version ⇒ same content (whole history), batch atomicity, read = last
-//! accepted write, reopen keeps contents and version cache, memory ≡ redb, cloud read-your-writes,
+//! accepted write, reopen keeps contents and version cache, memory ≡ redb (every divergence, batches
+//! repeating a key included, is a violation since the F8 fix), cloud read-your-writes,
 //! cloud local store changes only at commit and by exactly the mutations `prepare` reported.
 use crate::common::*;
 use lightning_signer::persist::Error;
@@ -407,9 +408,8 @@ fn run_pair(ops: &[String]) -> PairOut {
         }
         if !diverged && (om != or || dm != dr) {
             diverged = true;
-            let kind = if batch_repeats_key(&op) { "c16-mem-redb-differ-batch-repeats-key" } else { "c16-mem-redb-differ" };
             co.violations.push(Violation {
-                kind: kind.into(),
+                kind: "c16-mem-redb-differ".into(),
                 desc: format!("`{}`: memory -> {} {} ; redb -> {} {}", line, om, show_dump(&dm), or, show_dump(&dr)),
                 at: i,
             });
@@ -613,7 +613,7 @@ impl Group for C16Pair {
     fn corpus(&self) -> Vec<Vec<String>> {
         let c = |s: &str| s.split('|').map(|x| x.to_string()).collect::<Vec<_>>();
         vec![
-            // F8 witness (DESIGN §4): batch repeating a key
+            // F8 witness (DESIGN §4, fixed in /repo b41c142): batch repeating a key — both stores refuse it now
             c("putv 1 1 aa|batch 1 2 bb 1 1 aa|get 1|prefix all"),
             c("putv 1 1 aa|batch 1 2 bb 1 1 aa 1 2 aa|get 1|reopen|get 1"),
             // the repository's own unit-test scenarios
